@@ -4,6 +4,7 @@ import random
 from core import MC, Shard
 import drv_calendar
 import drv_computus
+import drv_leap
 
 YMIN, YMAX = -4712, 6000
 
@@ -140,4 +141,36 @@ def plan_C19(tier, seed):
                      "known/C19_g2m_inputs.json lists the exact civil dates on which gregorian2moslem is known to fail (see KNOWN_FINDINGS.txt)"])
 
 
-PLANS = {"C01": plan_C01, "C16": plan_C16, "C19": plan_C19}
+def _nt_c10(ev):
+    k = ev["k"]
+    if k == "utc":
+        return (k, ev["y"], ev["m"], ev["d"], ev["h"])
+    if k == "ovr":
+        return (k, ev["y"], ev["m"], ev["kk"])
+    return (k, ev["y"], ev["m"])
+
+
+def plan_C10(tier, seed):
+    T = ("Trace_Leap", "Trace.cfg")
+    times = drv_leap.TIMES if tier == "quick" else [(h, (7 * h) % 60, (11 * h) % 60) for h in range(24)] + [(23, 59, 59), (0, 0, 0)]
+    nsh = 12 if tier == "quick" else 30
+    sh = [Shard("ls", drv_leap.gen_ls, dict(y0=1950, y1=2100), *T)]
+    sh += [Shard("utc_%d" % a, drv_leap.gen_utc, dict(y0=a, y1=b, times=times), *T) for (a, b) in _split(1950, 2100, nsh)]
+    ks = list(range(0, 61))
+    yr = (1968, 2024) if tier == "quick" else (1950, 2100)
+    sh += [Shard("ovr_%d" % a, drv_leap.gen_ovr, dict(y0=a, y1=b, ks=ks), *T) for (a, b) in _split(yr[0], yr[1], nsh)]
+    sh += [Shard("dt", drv_leap.gen_dt, dict(y0=-2000, y1=3000), *T)]
+    return dict(
+        mc=[MC("MC_Leap", "MC_Leap.cfg", workers=4, heap="2g", note="every (year, month) 1950..2100")],
+        shards=sh, level="model_checking", exhaustive=True, nontrivial=_nt_c10,
+        rule="TLC checks the IERS step function for every (year, month) 1950..2100 (monotone, steps only in Jan/Jul, equals the "
+             "27-entry list, constant after 2017-01, lookup transcription refines it). Conformance: leap_seconds(y, m) for every "
+             "month 1950..2100; Epoch(..., utc=True) vs Epoch(...) and the utc read-back for every month x days 1/15/last x "
+             "times (quick: 0h, 12h, 23:59:59; thorough: 26 times of day); leap_seconds overrides 0..60; tt2ut for every "
+             "month -2000..3000 in order (joint jumps, 3.5 s band). All offsets are computed by TLC in exact fixed point from "
+             "the logged JDEs. Each (month, day, time) / (month, override) is a distinct case.",
+        assumptions=["'exactly' is decided at the float resolution of a JDE difference: 0.1 ms",
+                     "JDNOf/civil calendar from Calendar.tla (model-checked in C01)"])
+
+
+PLANS = {"C10": plan_C10, "C01": plan_C01, "C16": plan_C16, "C19": plan_C19}
